@@ -36,7 +36,7 @@ use crate::streams::stream_pair;
 
 pub const META: Meta = Meta {
     level: "fault_enumeration",
-    rule: "identify replies: publicKey in {own, other, undecodable, absent} x signedPeerRecord in {none, own valid, other's valid, record naming OWN signed by OTHER, own with last byte flipped, own in the non-accepted (interop) domain} x listenAddrs in {none, plain, /p2p/own, /p2p/other, relay-through-other, all four}; pushes after an honest identify: publicKey in {absent, own, other, undecodable} x the six listenAddrs variants x record in {none, other's valid}; pushes without a prior identify; and every single-bit flip of the signedPeerRecord field and of the publicKey field of an otherwise honest reply (thorough: also of the whole message). Non-trivial = cases whose message is not the honest one (distinct by case descriptor).",
+    rule: "identify replies: publicKey in {own, other, undecodable, absent} x signedPeerRecord in {none, own valid, other's valid, record naming OWN signed by OTHER, own with last byte flipped, own in the non-accepted (interop) domain} x listenAddrs in {none, plain, /p2p/own, /p2p/other, relay-through-other, own/p2p-circuit/other, other/p2p-circuit/own, own/p2p-circuit/own, other/p2p-circuit/other, all eight} (the same shapes inside the records); pushes after an honest identify: publicKey in {absent, own, other, undecodable} x the ten listenAddrs variants x record in {none, other's valid}; pushes without a prior identify; and every single-bit flip of the signedPeerRecord field and of the publicKey field of an otherwise honest reply (thorough: also of the whole message). Non-trivial = cases whose message is not the honest one (distinct by case descriptor).",
     explanation: "Fault enumeration over hostile wire messages against the real handler + behaviour; per case the Received events are checked against the three clauses of the statement.",
     assumptions: &["one connection, messages <= 4 KiB", "ed25519 identities", "record addresses and listenAddrs are disjoint by construction so that the source of a reported address is identifiable"],
 };
@@ -55,18 +55,37 @@ fn listen_variant(v: u64) -> Vec<Multiaddr> {
     let p_own = addr("/ip4/1.1.1.2/tcp/2").with(Protocol::P2p(own()));
     let p_other = addr("/ip4/1.1.1.3/tcp/3").with(Protocol::P2p(other()));
     let relay = addr("/ip4/1.1.1.4/tcp/4").with(Protocol::P2p(other())).with(Protocol::P2pCircuit);
+    // several /p2p components, every own/other combination; what counts is the LAST one
+    let multi = |ip: &str, first: libp2p_identity::PeerId, last: libp2p_identity::PeerId| addr(ip).with(Protocol::P2p(first)).with(Protocol::P2pCircuit).with(Protocol::P2p(last));
+    let own_other = multi("/ip4/1.1.1.5/tcp/5", own(), other());
+    let other_own = multi("/ip4/1.1.1.6/tcp/6", other(), own());
+    let own_own = multi("/ip4/1.1.1.7/tcp/7", own(), own());
+    let other_other = multi("/ip4/1.1.1.8/tcp/8", other(), other());
     match v {
         0 => vec![],
         1 => vec![plain],
         2 => vec![p_own],
         3 => vec![p_other],
         4 => vec![relay],
-        _ => vec![plain, p_own, p_other, relay],
+        5 => vec![plain, p_own, p_other, relay, own_other, other_own, own_own, other_other],
+        6 => vec![own_other],
+        7 => vec![other_own],
+        8 => vec![own_own],
+        _ => vec![other_other],
     }
 }
 /// addresses that only ever occur inside records
 fn record_addrs() -> Vec<Multiaddr> {
-    vec![addr("/ip4/9.9.9.9/tcp/9"), addr("/ip4/9.9.9.8/tcp/8").with(Protocol::P2p(other())), addr("/ip4/9.9.9.7/tcp/7").with(Protocol::P2p(own()))]
+    let multi = |ip: &str, first: libp2p_identity::PeerId, last: libp2p_identity::PeerId| addr(ip).with(Protocol::P2p(first)).with(Protocol::P2pCircuit).with(Protocol::P2p(last));
+    vec![
+        addr("/ip4/9.9.9.9/tcp/9"),
+        addr("/ip4/9.9.9.8/tcp/8").with(Protocol::P2p(other())),
+        addr("/ip4/9.9.9.7/tcp/7").with(Protocol::P2p(own())),
+        multi("/ip4/9.9.9.6/tcp/6", own(), other()),
+        multi("/ip4/9.9.9.5/tcp/5", other(), own()),
+        multi("/ip4/9.9.9.4/tcp/4", own(), own()),
+        multi("/ip4/9.9.9.3/tcp/3", other(), other()),
+    ]
 }
 
 const LEGACY_DOMAIN: &str = "libp2p-routing-state";
@@ -117,6 +136,8 @@ fn message(key: Option<&[u8]>, listen: &[Multiaddr], record: Option<&[u8]>) -> V
 }
 
 struct Victim {
+    /// addresses announced through ToSwarm::NewExternalAddrOfPeer (the behaviour's peer cache)
+    announced: Vec<Multiaddr>,
     beh: identify::Behaviour,
     handler: THandler<identify::Behaviour>,
 }
@@ -128,7 +149,7 @@ impl Victim {
         let handler = beh.handle_established_outbound_connection(ConnectionId::new_unchecked(CONN), own(), &a, Endpoint::Dialer, PortUse::Reuse).expect("handler");
         let ep = ConnectedPoint::Dialer { address: a, role_override: Endpoint::Dialer, port_use: PortUse::Reuse };
         beh.on_swarm_event(FromSwarm::ConnectionEstablished(ConnectionEstablished { peer_id: own(), connection_id: ConnectionId::new_unchecked(CONN), endpoint: &ep, failed_addresses: &[], other_established: 0 }));
-        Victim { beh, handler }
+        Victim { announced: Vec::new(), beh, handler }
     }
 
     /// deliver one message (identify reply or push) and return what the behaviour reports
@@ -169,6 +190,10 @@ impl Victim {
                     reported.push(info);
                 }
                 Poll::Ready(ToSwarm::GenerateEvent(identify::Event::Error { .. })) => errors += 1,
+                Poll::Ready(ToSwarm::NewExternalAddrOfPeer { peer_id, address }) => {
+                    assert_eq!(peer_id, own());
+                    self.announced.push(address);
+                }
                 Poll::Ready(_) => {}
                 Poll::Pending => break,
             }
@@ -185,6 +210,7 @@ struct Tally {
     silent: u64,
     errors: u64,
     filtered_addr: u64,
+    announced: u64,
 }
 
 /// the oracle for one reported Info. `record_authentic`: the message's record is a valid OWN record.
@@ -206,6 +232,8 @@ fn judge(info: &identify::Info, record_authentic: bool, sent_listen: &[Multiaddr
         return Err("unauthenticated-record-passed-on :: Info.signed_peer_record is Some for a record that is not a valid record of the connection's peer".into());
     }
     for a in &info.listen_addrs {
+        // Reading of "names a different /p2p peer": the address's own (last) /p2p component. An
+        // inner /p2p is the relay of a circuit address and legitimately differs.
         if let Some(Protocol::P2p(p)) = a.iter().last() {
             if p != own() {
                 return Err(format!("listen-addr-names-other-peer :: reported listen address {a} ends in /p2p/{p}"));
@@ -238,7 +266,7 @@ fn run_case(case: &Value, tally: &mut Tally) -> Result<(), String> {
         }
         Ok(())
     };
-    match kind {
+    let r = match kind {
         "identify" => {
             let (k, r, l) = (case["key"].as_u64().unwrap_or(0), case["rec"].as_u64().unwrap_or(0), case["listen"].as_u64().unwrap_or(0));
             let rec = record_variant(r);
@@ -296,20 +324,32 @@ fn run_case(case: &Value, tally: &mut Tally) -> Result<(), String> {
             check(rep, err, authentic, &sent, tally)
         }
         _ => Err("harness-bad-case :: unknown kind".into()),
+    };
+    r?;
+    // what the behaviour cached / announced for the peer obeys clause 3 as well
+    for a in &v.announced {
+        tally.announced += 1;
+        // same rule as for Info.listen_addrs: the trailing /p2p component is the address's peer
+        if let Some(Protocol::P2p(p)) = a.iter().last() {
+            if p != own() {
+                return Err(format!("announced-addr-names-other-peer :: NewExternalAddrOfPeer for {} carries {a}, which ends in /p2p/{p}", own()));
+            }
+        }
     }
+    Ok(())
 }
 
 fn cases(thorough: bool) -> Vec<Value> {
     let mut v = Vec::new();
     for k in 0..4 {
         for r in 0..6 {
-            for l in 0..6 {
+            for l in 0..10 {
                 v.push(json!({"kind": "identify", "key": k, "rec": r, "listen": l}));
             }
         }
     }
     for k in 0..4 {
-        for l in 0..6 {
+        for l in 0..10 {
             for r in [0, 2] {
                 v.push(json!({"kind": "push", "key": k, "rec": r, "listen": l, "prior": true}));
             }
@@ -375,7 +415,8 @@ pub fn run(ctx: &Ctx) -> Outcome {
     out.count("deliveries_without_report", t.silent);
     out.count("identification_errors", t.errors);
     out.count("reports_from_messages_containing_foreign_p2p_addresses", t.filtered_addr);
-    for k in ["received_events", "received_with_record_addresses", "received_with_listen_field_addresses", "deliveries_without_report", "identification_errors", "reports_from_messages_containing_foreign_p2p_addresses"] {
+    out.count("addresses_announced_new_external_addr_of_peer", t.announced);
+    for k in ["received_events", "received_with_record_addresses", "received_with_listen_field_addresses", "deliveries_without_report", "identification_errors", "reports_from_messages_containing_foreign_p2p_addresses", "addresses_announced_new_external_addr_of_peer"] {
         if out.get(k) == 0 {
             out.machinery(format!("vacuity: counter {k} is zero"));
         }
